@@ -41,7 +41,8 @@ TRUSTED = c11.TRUSTED + [
     "declared outputs are untyped (Any) in the correspondence, so output type checking is outside the model",
 ]
 ASSUMPTIONS = c11.ASSUMPTIONS + ["python tasks declare at least one output (python.define adds 'out' otherwise)"]
-RULE = ("(1) random histories of 3-8 steps over a pool of failing tasks (python raise, shell exit 3, shell output file "
+RULE = ("(1) random histories of 3-8 steps over a pool of failing tasks (python raise, shell exit 3 / exit 255 / killed by "
+        "SIGKILL / SIGTERM / command not found / not executable, python or workflow output collection failure, shell output file "
         "not created, python dict without a mandatory key, python tuple of wrong arity) and two workflows containing "
         "them, with per-step failure flags so that failures are followed by successes of the same identity; "
         "non-trivial = a submission whose store before is non-empty; (2) generated (declared outputs with/without "
@@ -49,7 +50,9 @@ RULE = ("(1) random histories of 3-8 steps over a pool of failing tasks (python 
         "container return; distinct by case content")
 
 # ------------------------------------------------------------------------------------------------ pool
-TOP13 = [["Raise", 1], ["Sh", 1], ["MF", 1], ["DictMiss", 1], ["Arity", 1], ["PyColl", 1], ["WR", 1], ["WD", 1], ["WT", 1]]
+SHF_MODES = ["kill9", "term", "exit255", "notfound", "noexec"]
+TOP13 = ([["Raise", 1], ["Sh", 1], ["MF", 1], ["DictMiss", 1], ["Arity", 1], ["PyColl", 1], ["WR", 1], ["WD", 1], ["WT", 1]]
+         + [["ShF", 1, m] for m in SHF_MODES])
 
 
 def children13(d):
@@ -79,7 +82,7 @@ def expected13(d):
         return {"out": d[1] + 1}
     if k == "Raise":
         return {"out": d[1] + 1}
-    if k == "Sh":
+    if k in ("Sh", "ShF"):
         return {"return_code": 0, "stderr": "", "stdout": "%d\n" % (d[1] + 1)}
     if k == "MF":
         return {"outfile": "fileset:outfile", "return_code": 0, "stderr": "", "stdout": ""}
@@ -104,6 +107,20 @@ MF_SCRIPT = """echo "BODY [\\"MF\\", $1]" >> $C11_LOG
 if [ -e $C11_FLAGS/MF_$1 ]; then exit 0; fi
 echo $1 > $2
 """
+# shell failure modes beyond a positive exit code: death by signal (negative return code in subprocess),
+# exit 255, command not found (127), file without execute permission (126)
+SHF_SCRIPT = """echo "BODY [\\"ShF\\", $1, \\"$2\\"]" >> $C11_LOG
+if [ -e $C11_FLAGS/ShF_$1_$2 ]; then
+  case $2 in
+    kill9) kill -9 $$ ;;
+    term) kill -TERM $$ ;;
+    exit255) exit 255 ;;
+    notfound) exec /nonexistent/verif-c13-command ;;
+    noexec) exec /tmp/verif-c13-scripts/noexec.txt ;;
+  esac
+fi
+echo $(( $1 + 1 ))
+"""
 SCRIPT_DIR = "/tmp/verif-c13-scripts"     # fixed path: it is an input of the shell tasks, hence part of their identity
 
 
@@ -113,7 +130,7 @@ def _runner_pool13(logf, flagdir):
     from pydra.engine.hooks import TaskHooks
 
     os.makedirs(SCRIPT_DIR, exist_ok=True)
-    for name, txt in (("sh.sh", SH_SCRIPT), ("mf.sh", MF_SCRIPT)):
+    for name, txt in (("sh.sh", SH_SCRIPT), ("mf.sh", MF_SCRIPT), ("shf.sh", SHF_SCRIPT), ("noexec.txt", "not executable\n")):
         path = os.path.join(SCRIPT_DIR, name)
         if not os.path.exists(path) or open(path).read() != txt:
             tmp = path + ".%d" % os.getpid()
@@ -208,6 +225,7 @@ def _runner_pool13(logf, flagdir):
 
     Sh = shell.define("sh <script:str> <a:int>", name="Sh")
     MF = shell.define("sh <script:str> <a:int> <out|outfile:generic/file>", name="MF")
+    ShF = shell.define("sh <script:str> <a:int> <mode:str>", name="ShF")
 
     @workflow.define
     def WR(a: int) -> int:
@@ -236,6 +254,8 @@ def _runner_pool13(logf, flagdir):
             return Sh(script=os.path.join(SCRIPT_DIR, "sh.sh"), a=d[1])
         if k == "MF":
             return MF(script=os.path.join(SCRIPT_DIR, "mf.sh"), a=d[1])
+        if k == "ShF":
+            return ShF(script=os.path.join(SCRIPT_DIR, "shf.sh"), a=d[1], mode=d[2])
         if k == "PyColl":
             return PyColl(d[1])
         if k == "Loose":
